@@ -184,6 +184,9 @@ class AxolotlSendLayer(AxolotlBaseLayer):
                 )
 
         if not retryCount:
+            if not len(jidsNeedSenderKey) and self.manager.load_senderkey(groupJid).isEmpty():
+                # nobody to hand the sender key to (yet): it must exist all the same before the message can be encrypted
+                self.manager.group_create_skmsg(groupJid)
             messageData = protoNode.getData()
             ciphertext = self.manager.group_encrypt(groupJid, messageData)
             mediaType = protoNode["mediatype"]
